@@ -238,7 +238,12 @@ def _list_buildoptions(coredata: cdata.CoreData, subprojects: T.Optional[T.List[
 
     def add_keys(opts: T.Union[options.MutableKeyedOptionDictType, options.OptionStore], section: str) -> None:
         for key, opt in sorted(opts.items()):
-            optdict = {'name': str(key), 'value': opt.value, 'section': section,
+            value = opt.value
+            if key.subproject:
+                # What get_option() returns in the subproject: a per-subproject
+                # override or the yielded parent value, not the stored default
+                _, value = coredata.optstore.get_option_and_value_for(key)
+            optdict = {'name': str(key), 'value': value, 'section': section,
                        'machine': key.machine.get_lower_case_name() if coredata.optstore.is_per_machine_option(key) else 'any'}
             if isinstance(opt, options.UserStringOption):
                 typestr = 'string'
